@@ -40,7 +40,7 @@ UNIT = dict(
         dict(kind='fn', file=A, impl=AC.IMPL, name='get', label='AsyncGlobalCache::get[interference]', engine='AsyncGlobalCache', interference=True, ret='res',
              rules=R4 + R5 + R1_TYPES, impl_rules=AC.LIFETIME, ensures=[ONE]),
         dict(kind='fn', file=A, impl=AC.IMPL, name='is_already_key_inserted', label='AsyncGlobalCache::is_already_key_inserted[interference]', engine='AsyncGlobalCache',
-             split_self=True, interference=True, rules=R4 + R1_TYPES, impl_rules=AC.LIFETIME, props=['C16']),
+             split_self=True, split_always=('max_memory',), interference=True, rules=R4 + R1_TYPES, impl_rules=AC.LIFETIME, props=['C16']),
         dict(kind='fn', file=A, impl=AC.IMPL, name='find_min_frequency_key', label='AsyncGlobalCache::find_min_frequency_key[interference]', engine='AsyncGlobalCache',
              split_self=True, interference=True, rules=R1_TYPES, impl_rules=AC.LIFETIME, props=['C16'], ret='res',
              ensures=[('result_from_queue', ['C16'], 'res is Some ==> order@.contains(res->Some_0)')],
